@@ -305,12 +305,12 @@ specialise(
 )
 
 
-UNKNOWN_COLS = ["entity_ids", "update", "create-if", "Label x"]
+UNKNOWN_COLS = ["entity_ids", "update", "create-if", "Label x", "name", "type", "parameters", "Name", "save_to", "list_name", "parent", "relevant"]  # near misses and columns that belong to other sheets
 
 
 def c19_shape(extra_col: bool, two_rows: bool, hi: int, v0: int, v1: int) -> bool:
     """
-    pre: 0 <= hi <= 3
+    pre: 0 <= hi <= 11
     pre: 33 <= v0 <= 126 and v0 != 36 and 33 <= v1 <= 126 and v1 != 36
     post: _ == True
     """
@@ -327,7 +327,7 @@ def c19_shape(extra_col: bool, two_rows: bool, hi: int, v0: int, v1: int) -> boo
         if not (extra_col or two_rows):
             return False
         if extra_col and not two_rows:
-            return H in str(e)
+            return H.lower() in str(e).lower()  # the message may cite the normalised spelling
         return True
     return not (extra_col or two_rows)
 
@@ -338,7 +338,38 @@ ob(
     timeout=300,
     kernel=K,
     shims=("S1", "S2", "S3", "S4"),
-    symbolic="unknown entities column (symbolic index into 4 near-miss headers; header text itself concrete because dict keys are hashed), its 2-character cell value, presence flag, second entity row flag",
-    bounds="4 unknown headers; value length 2",
+    symbolic="unknown entities column (symbolic index into 12 headers: near misses and column names of the survey/choices sheets; header text itself concrete because dict keys are hashed), its 2-character cell value, presence flag, second entity row flag",
+    bounds="12 unknown headers; value length 2",
     weight=40,
 )(c19_shape)
+
+
+
+# ---- b': save_to on a section row, in every documented spelling of begin group / begin repeat ----------
+SECTION_SPELLINGS = [("begin group", "end group"), ("begin_group", "end_group"), ("Begin Group", "End Group"), ("begin repeat", "end repeat"), ("begin_repeat", "end_repeat"), ("begin lgroup", "end lgroup"), ("begin_lgroup", "end_lgroup"), ("begin looped group", "end looped group")]
+
+
+@ob(
+    "C19",
+    "b.saveto-section-spellings",
+    timeout=300,
+    kernel=K,
+    shims=("S1", "S2", "S3", "S4"),
+    symbolic="spelling of the section's type cell chosen by a symbolic index over 8 documented begin/end spellings (group, repeat and their legacy aliases), a label tracer character",
+    bounds="save_to written on the begin row of a group or repeat: must be refused in every spelling",
+    weight=40,
+)
+def c19_saveto_sections(sp: int, c0: int) -> bool:
+    """
+    pre: 0 <= sp <= 7
+    pre: 97 <= c0 <= 122
+    post: _ == True
+    """
+    b, e = SECTION_SPELLINGS[sp]
+    rows = [{"type": b, "name": "s", "label": S(c0, 65), "save_to": "p1"}, {"type": "text", "name": "q1", "label": "L"}, {"type": e}]
+    try:
+        survey, _w, _js = build_survey({"survey": rows, "entities": [{"dataset": "ds", "label": "a"}]})
+        survey.xml()
+    except PyXFormError:
+        return True
+    return False
